@@ -84,7 +84,7 @@ def grpc_copy(env):
     GOMODCACHE cannot be overlaid). Shared by all build directories."""
     dst = os.path.join(BUILD_ROOT, 'grpc-v1.62.1-sim')
     marker = os.path.join(dst, '.sim-ok')
-    want = open(os.path.join(SIM, 'overlays/grpcrand_go1.21.go')).read() + '// v2 transport-read tie-break\n'
+    want = open(os.path.join(SIM, 'overlays/grpcrand_go1.21.go')).read() + '// v2 transport-read tie-break\n// v3 clientStream.mu waits on the fake clock\n'
     if os.path.exists(marker) and open(marker).read() == want:
         return dst
     rc, moddir = sh([GO_NEW, 'list', '-m', '-f', '{{.Dir}}', 'google.golang.org/grpc'], cwd=SIM, env=env)
@@ -133,6 +133,41 @@ def grpc_copy(env):
     if '"time"' not in src:
         raise BuildError('grpc transport.go: time not imported')
     open(tp, 'w').write(src)
+    # clientStream.mu is held by RecvMsg's transparent retry while it waits (durably) for a
+    # transport, and SendMsg then blocks in a real sync.Mutex.Lock - which testing/synctest does
+    # not regard as durably blocked, so the bubble would never become quiescent again. Make this
+    # one mutex wait by polling on the (fake) clock; lock semantics are unchanged.
+    os.makedirs(os.path.join(tmp, 'internal/simsync'), exist_ok=True)
+    open(os.path.join(tmp, 'internal/simsync/simsync.go'), 'w').write("""// Package simsync: a mutex whose waiters sleep on the clock instead of parking in the runtime.
+package simsync
+
+import (
+	"sync"
+	"time"
+)
+
+type Mutex struct{ m sync.Mutex }
+
+func (m *Mutex) Lock() {
+	d := time.Microsecond
+	for !m.m.TryLock() {
+		time.Sleep(d)
+		if d < 10*time.Millisecond {
+			d *= 2
+		}
+	}
+}
+
+func (m *Mutex) Unlock() { m.m.Unlock() }
+""")
+    sp = os.path.join(tmp, 'stream.go')
+    src = open(sp).read()
+    a = "\tmu                      sync.Mutex\n\tfirstAttempt            bool"
+    if src.count(a) != 1 or '"google.golang.org/grpc/internal/grpcutil"' not in src:
+        raise BuildError('grpc stream.go does not have the expected shape')
+    src = src.replace(a, "\tmu                      simsync.Mutex\n\tfirstAttempt            bool")
+    src = src.replace('"google.golang.org/grpc/internal/grpcutil"', '"google.golang.org/grpc/internal/grpcutil"\n\t"google.golang.org/grpc/internal/simsync"', 1)
+    open(sp, 'w').write(src)
     open(os.path.join(tmp, '.sim-ok'), 'w').write(want)
     shutil.rmtree(dst, ignore_errors=True)
     os.replace(tmp, dst)
@@ -210,7 +245,7 @@ def build(mode='L2', quiet=False):
 
 # ----------------------------------------------------------------- running
 
-def run_workers(binary, profile, tier, seed0, nruns, budget_s, mode, workers=None, extra_env=None, sample_every=0):
+def run_workers(binary, profile, tier, seed0, nruns, budget_s, mode, workers=None, extra_env=None, sample_every=0, test='TestSim'):
     """Runs nruns seeds (seed0, seed0+1, ...) split over worker processes.
     Returns (lines, problems)."""
     workers = workers or WORKERS
@@ -229,7 +264,7 @@ def run_workers(binary, profile, tier, seed0, nruns, budget_s, mode, workers=Non
         if extra_env:
             env.update(extra_env)
         lf = open(os.path.join(tmp, 'w%d.log' % k), 'w')
-        p = subprocess.Popen([binary, '-test.run', '^TestSim$', '-test.timeout', '6h', '-test.cpu', '1'], env=env, stdout=lf, stderr=subprocess.STDOUT, cwd=tmp)
+        p = subprocess.Popen([binary, '-test.run', '^%s$' % test, '-test.timeout', '6h', '-test.cpu', '1'], env=env, stdout=lf, stderr=subprocess.STDOUT, cwd=tmp)
         procs.append((p, lf, k))
     problems = []
     deadline = time.time() + budget_s + 180
@@ -342,6 +377,15 @@ def summarize(lines):
             nontrivial_sigs.add(l['SchedSig'])
     agg['distinct_schedules'] = len(sigs)
     agg['distinct_nontrivial'] = len(nontrivial_sigs)
+    bases = [l for l in lines if l.get('EnumPoints') is not None and 'Enum' not in l and l.get('EnumPoints', 0) > 0]
+    pts = [l for l in lines if l.get('Enum')]
+    fired = {}
+    for l in pts:
+        kind = l['Enum'].rsplit(':', 1)[-1]
+        fired[kind] = fired.get(kind, 0) + 1
+    agg['enumeration'] = dict(base_programs=len(bases), points_planned=sum(l['EnumPoints'] for l in bases), points_run=len(pts),
+                              bases_thinned=sum(1 for l in bases if l.get('EnumTruncated')), by_fault_kind=fired,
+                              distinct_sites=len(set(l['Enum'].split('#')[0] for l in pts)))
     return agg
 
 
@@ -390,6 +434,16 @@ def run_check(prop, tier):
             all_lines += lines
             all_problems += problems
             tmpdirs.append(tmp)
+    # site-triggered fault enumeration (DESIGN.md 4.6): every profiled (role, site, k) x fault kind of sampled base programs
+    en = (pr.get('enum') or {}).get(tier)
+    if en:
+        lines, problems, tmp = run_workers(binary, prop, tier, 3000017 + seed * 104729, en['bases'], en['budget_s'], mode, test='TestEnum',
+                                           extra_env={'SIM_ENUM': '1', 'SIM_ENUM_MAX': str(en['max_points']), 'SIM_ENUM_K': str(en.get('k', 3))})
+        for l in lines:
+            l['_profile'] = prop
+        all_lines += lines
+        all_problems += problems
+        tmpdirs.append(tmp)
     rc = finish(prop, tier, seed, mode, pr, binary, th, all_lines, all_problems, known, t0)
     for t in tmpdirs:
         shutil.rmtree(t, ignore_errors=True)
@@ -480,7 +534,7 @@ def finish(prop, tier, seed, mode, pr, binary, th, lines, problems, known, t0):
             seeds=dict(fixed_base=1000003, derived_from_VERIF_SEED=seed),
             sim_time_s_total=round(agg['sim_ms'] / 1000.0, 1), steps_total=agg['steps'], calls_total=agg['calls'], tasks_total=agg['tasks'],
             unnamed_foreign_tasks=agg['unnamed'], distinct_schedules=agg['distinct_schedules'], strategies=agg['strategies'],
-            faults_fired=agg['faults'], network=agg['net'], probes=agg['probes'], rules=agg['rules'],
+            faults_fired=agg['faults'], network=agg['net'], probes=agg['probes'], rules=agg['rules'], enumeration=agg['enumeration'],
             known_findings_seen={'%s/%s' % k: d['n'] for k, d in known_seen.items()},
             other_property_notes=others, replay=replay_stats, minimisation=min_reports, problems=problems[:5], mode=mode, tree_hash=th,
             components_real=COMPONENTS_REAL, components_stub=COMPONENTS_STUB,
